@@ -118,6 +118,10 @@ func (e *eventRingBuffer) getEventsFromID(id uint64, count uint64) ([]*si.EventR
 			start: pos,
 			end:   end,
 		}
+		// the requested events do not pass the end of the slice: no second range (pos+count-capacity would underflow)
+		if pos+count <= e.capacity {
+			return e.getEntriesFromRanges(r1, nil), lowest, e.getLastEventID()
+		}
 		// second range only if still events left to fetch
 		var r2 *eventRange
 		end = pos + count - e.capacity
